@@ -64,6 +64,7 @@ theorem single_extent (f : FileRef) (joliet : Bool) (base : Nat) (h : f.size ≤
   have : ¬ f.size > maxPart := by omega
   simp [this]
 
+
 /-- A larger file is split into extents of 0xFFFFF800 bytes (all flagged multi-extent) plus a last,
     unflagged one holding the remainder; the extents are contiguous on disc. -/
 theorem multi_extent_shape (f : FileRef) (joliet : Bool) (base : Nat) (h : f.size > maxPart) (i : Nat)
@@ -184,5 +185,33 @@ theorem identifier_portable_primary (name : Bytes) (hlen : name.length ≤ 221)
   have : UInt8.ofNat c.toNat = c := by simp
   have h3' := List.contains_iff_mem.mp h3
   simp [inSet, hu, h1, this, h3']
+
+/-- **Every extent length fits the 32-bit field of a directory record**, for every file size: a
+    file up to 2^32−1 bytes is one extent, a larger one is cut into parts of 0xFFFFF800 bytes, so the
+    both-endian length field never wraps and the size an ISO reader decodes is the file's. -/
+theorem extent_len_fits (f : FileRef) (joliet : Bool) (base : Nat) :
+    ∀ r ∈ fileRecs f joliet base, r.extLen < 2 ^ 32 := by
+  intro r hr
+  have hmax : maxPart = 2 ^ 32 - 1 := by decide
+  have hpart : multiExtentPart = 2 ^ 32 - 2048 := by decide
+  unfold fileRecs at hr
+  dsimp only at hr
+  split at hr
+  · rw [List.mem_map] at hr
+    obtain ⟨i, hi, rfl⟩ := hr
+    rw [List.mem_range] at hi
+    have htot := (multi_extent_total f.size multiExtentPart (by rw [hpart]; decide)).2 (by omega)
+    generalize f.size / multiExtentPart + (if f.size % multiExtentPart > 0 then 1 else 0) = parts at hi htot ⊢
+    by_cases hl : (i == parts - 1) = true
+    · simp only [hl, if_true]
+      simp only [beq_iff_eq] at hl
+      rw [← hl] at htot
+      omega
+    · simp only [hl, Bool.false_eq_true, if_false]
+      rw [hpart]; decide
+  · simp only [List.mem_singleton] at hr
+    subst hr
+    show f.size < 2 ^ 32
+    omega
 
 end Ps3.Props.C07
